@@ -23,11 +23,11 @@
 (***************************************************************************)
 EXTENDS TrimImpl, Json
 
-CONSTANTS Topos, Lays, Fills, MaxSlots, Menus, ArgSel   \* and Fixes of TrimImpl
+CONSTANTS Universes   \* sequence of [topos, lays, fills, maxslots, menus, argsel]; and Fixes of TrimImpl
 
 VARIABLES stage, g, out
 vars == <<stage, g, out>>
-\* g = [G, sl (definition numbers of the slots' X), topo, lay, fill, slots (descriptors)]
+\* g = [u (universe number), G, sl (definition numbers of the slots' X), topo, lay, fill, slots (descriptors)]
 
 Topo(n) == CASE n = "one"   -> << <<>> >>
              [] n = "two"   -> << <<2>>, <<>> >>
@@ -87,7 +87,10 @@ Wrap(w, t) == CASE w = "d"  -> t
                 [] w = "ll" -> [n |-> "l", v |-> [n |-> "l", v |-> t]]
 
 Usr(c, s, i, pos, j, uf) == [c |-> c, s |-> s, i |-> i, pos |-> pos, j |-> j, uf |-> uf]
-Slot(u, w, via, f, k, pres) == [u |-> u, w |-> w, via |-> via, f |-> f, k |-> k, pres |-> pres]
+Slot(u, w, via, f, k, pres) == [u |-> u, w |-> w, via |-> via, f |-> f, k |-> k, pres |-> pres, dv |-> FALSE]
+\* constants of files that file f includes directly (targets of a default value `= g.C`)
+ConstsBelow(G, f) == {c \in 1..Len(G.defs) : G.defs[c].k = "const" /\ G.defs[c].f \in Range(G.inc[f]) /\ G.defs[c].cv = <<>>
+                                              /\ G.defs[c].ty = <<[n |-> "b"]>>}
 
 \* the file the user of slot sl (the n-th slot) is in
 UserFile(st, n, sl) == CASE sl.u.c = "fn" -> st.G.defs[sl.u.s].f
@@ -106,7 +109,9 @@ SlotOK(st, n, sl) ==
   /\ sl.u.c = "fld" => /\ sl.u.j \in 1..n /\ sl.k # "exception"
                        /\ sl.u.j < n => G.defs[st.sl[sl.u.j]].k \in SLKinds
                        /\ sl.u.j = n => (sl.k \in {"struct", "union"} /\ sl.via = "d")
-  /\ sl.u.c = "const" => sl.k = "struct" /\ sl.w \in {"d", "l", "mv"} /\ sl.u.uf \in Files(G)
+  /\ sl.u.c = "const" => /\ sl.k \in {"struct", "enum"} /\ sl.w \in {"d", "l", "mv"} /\ sl.u.uf \in Files(G)
+                         /\ sl.k = "enum" => sl.w = "d"
+  /\ sl.dv => (sl.k \in SLKinds /\ ConstsBelow(G, sl.f) # {})
   /\ sl.u.c = "none" => /\ sl.w = "d" /\ sl.u.uf \in Files(G)
                         /\ sl.via = "d" => sl.u.uf = sl.f
                         /\ sl.via = "tr" => sl.u.uf = sl.f
@@ -127,7 +132,9 @@ AddSlot(st, sl) ==
                [] sl.via = "tl" -> Ref(t)
                [] OTHER         -> Wrap(sl.w, Ref(t))
       tty == IF sl.via = "tl" THEN Wrap(sl.w, Ref(x)) ELSE Ref(x)
-      xd  == [Def(sl.k, sl.f, IF sl.u.c = "fld" /\ sl.u.j = n THEN <<uty>> ELSE <<>>) EXCEPT !.pres = sl.pres]
+      xd  == [Def(sl.k, sl.f, IF sl.u.c = "fld" /\ sl.u.j = n THEN <<uty>> ELSE <<>>) EXCEPT
+                 !.pres = sl.pres,
+                 !.cv = IF sl.dv THEN <<CHOOSE c \in ConstsBelow(G, sl.f) : \A c2 \in ConstsBelow(G, sl.f) : c <= c2>> ELSE <<>>]
       d1  == Append(G.defs, xd)
       d2  == IF sl.via = "d" THEN d1 ELSE Append(d1, Def("typedef", tdf, <<tty>>))
       d3  == CASE sl.u.c = "fn" ->
@@ -161,7 +168,7 @@ Menu(name, st, n) ==
             Prod(FirstFn(G), {"d", "l"}, {"d", "tr"}, F, {"union", "enum"}, {"n"})
        [] name = "loose" ->   \* not used by a function: nobody / constant / self, preserved or not
             Prod(none, {"d"}, AllVia, F, {"struct", "union", "exception"}, {"n", "c"})
-            \cup Prod(cst, {"d", "l", "mv"}, {"d", "tr"}, F, {"struct"}, {"n"})
+            \cup Prod(cst, {"d", "l", "mv"}, {"d", "tr"}, F, {"struct", "enum"}, {"n"})
             \cup Prod(self, {"d", "l", "mv"}, {"d"}, F, {"struct"}, {"n", "c"})
        [] name = "child" ->   \* field of an earlier slot
             Prod(prev, {"d", "l", "mk", "mv"}, AllVia, F, {"struct", "union", "enum"}, {"n"})
@@ -171,6 +178,8 @@ Menu(name, st, n) ==
             Prod(none, {"d"}, {"d", "tl"}, F, {"struct"}, {"n", "c"})
        [] name = "parents" -> \* something a second slot can hang below
             Prod(FirstFn(G) \cup none, {"d"}, {"d", "tr"}, F, {"struct", "union"}, {"n"})
+       [] name = "dflt" ->    \* a struct-like with a field whose default value is a constant of an included file
+            {[sl EXCEPT !.dv = TRUE] : sl \in Prod(FirstFn(G) \cup none, {"d"}, {"d"}, F, {"struct", "union"}, {"n", "c"})}
        [] name = "fn1" ->     \* one plain argument of the first function of every service
             Prod({u \in FnUsers(G, {"a"}) : u.i = 1}, {"d"}, {"d"}, F, {"struct"}, {"n"})
        [] name = "fns" ->
@@ -178,7 +187,7 @@ Menu(name, st, n) ==
 
 SlotChoices(st) ==
   LET n == Len(st.sl) + 1 IN
-  {sl \in UNION {Menu(m, st, n) : m \in Menus[n]} : SlotOK(st, n, sl)}
+  {sl \in UNION {Menu(m, st, n) : m \in Universes[st.u].menus[n]} : SlotOK(st, n, sl)}
 
 \* ------------------------------------------------------------------ arguments
 Pat(q, s, f) == [q |-> q, s |-> s, f |-> f]
@@ -221,8 +230,8 @@ ArgMenu(G) ==
 
 \* ArgSel = "all": the whole menu; "few": no filter, the functions of the first root service one at a time,
 \* preserve off, one preserved-struct list, the comment switch
-Args(G) ==
-  IF ArgSel = "all" THEN ArgMenu(G)
+Args(G, argsel) ==
+  IF argsel = "all" THEN ArgMenu(G)
   ELSE LET R == RootSvcs(G)
            r == CHOOSE x \in R : \A y \in R : x <= y
            SL == StructLikes(G)
@@ -233,48 +242,70 @@ Args(G) ==
           \cup (IF \E x \in SL : G.defs[x].pres = "c" THEN {Arg(NoPat, "unset", TRUE, <<>>, FALSE)} ELSE {})
 
 \* ------------------------------------------------------------------ the state machine
-Init == stage = "root" /\ out = <<>> /\ g = [G |-> [inc |-> <<<<>>>>, defs |-> <<>>], sl |-> <<>>, topo |-> "", lay |-> "", fill |-> <<>>, slots |-> <<>>]
+Init == stage = "root" /\ out = <<>> /\ g = [u |-> 0, G |-> [inc |-> <<<<>>>>, defs |-> <<>>], sl |-> <<>>, topo |-> "", lay |-> "", fill |-> <<>>, slots |-> <<>>]
 
 PickTopoLay ==
   /\ stage = "root"
-  /\ \E tp \in Topos : \E ly \in {l \in Layouts(Topo(tp)) : l.name \in Lays} :
-       /\ g' = [g EXCEPT !.G = [inc |-> Topo(tp), defs |-> ly.svcs], !.topo = tp, !.lay = ly.name]
+  /\ \E u \in DOMAIN Universes : \E tp \in Universes[u].topos :
+     \E ly \in {l \in Layouts(Topo(tp)) : l.name \in Universes[u].lays} :
+       /\ g' = [g EXCEPT !.u = u, !.G = [inc |-> Topo(tp), defs |-> ly.svcs], !.topo = tp, !.lay = ly.name]
        /\ stage' = "lay" /\ UNCHANGED out
 
 PickFill ==
   /\ stage = "lay"
-  /\ \E fl \in [1..(Len(g.G.inc) - 1) -> Fills] :
+  /\ \E fl \in [1..(Len(g.G.inc) - 1) -> Universes[g.u].fills] :
        /\ FillOK(g.G.inc, fl)
        /\ g' = [g EXCEPT !.G.defs = @ \o FillDefs(g.G.inc, fl, Len(g.G.defs)), !.fill = fl]
        /\ stage' = "prog" /\ UNCHANGED out
 
 PickSlot ==
-  /\ stage = "prog" /\ Len(g.sl) < MaxSlots
+  /\ stage = "prog" /\ Len(g.sl) < Universes[g.u].maxslots
   /\ \E sl \in SlotChoices(g) : g' = AddSlot(g, sl)
   /\ UNCHANGED <<stage, out>>
 
 \* B => A, case export.  The evaluation of a program's cases is a step of its own so that the worker that takes
 \* the program state from the queue does it (all workers busy), not the worker that generated the state.
-Cases(G) == LET I == Info(G) IN {LET b == BResult(I, a) IN [ar |-> a, b |-> b, bok |-> Allowed(I, a, b)] : a \in Args(G)}
+Cases(G, argsel) ==
+  LET I == Info(G) IN {LET b == BResult(I, a) IN [ar |-> a, b |-> b, bok |-> Allowed(I, a, b), asat |-> Allowed(I, a, Ideal(I, a))] : a \in Args(G, argsel)}
 Evaluate ==
   /\ stage = "prog" /\ stage' = "done" /\ UNCHANGED g
-  /\ out' = Cases(g.G)
+  /\ out' = Cases(g.G, Universes[g.u].argsel)
 
 Next == PickTopoLay \/ PickFill \/ PickSlot \/ Evaluate
 Spec == Init /\ [][Next]_vars
 
 Emit == stage = "done" =>
-          PrintT("CASE " \o ToJson([G |-> g.G, topo |-> g.topo, lay |-> g.lay, fill |-> g.fill, slots |-> g.slots,
+          PrintT("CASE " \o ToJson([u |-> g.u, G |-> g.G, topo |-> g.topo, lay |-> g.lay, fill |-> g.fill, slots |-> g.slots,
                                     cases |-> out]))
 
-cMenusSmall == <<{"edges", "loose2"}, {"childs"}>>
-cMenus1  == <<{"edges", "shapes", "kinds", "loose"}>>
-cMenusFn == <<{"fns", "loose2"}>>
-cMenusFn1 == <<{"fn1", "loose2"}>>
-cMenus2q == <<{"parents"}, {"childs", "loose2"}>>
-cMenus2  == <<{"parents", "loose2"}, {"child", "loose2"}>>
-cMenus2f == <<{"fns"}, {"childs", "loose2"}>>
-cMenus3  == <<{"parents"}, {"childs"}, {"childs", "loose2"}>>
+U(topos, lays, fills, maxslots, menus, argsel) ==
+  [topos |-> topos, lays |-> lays, fills |-> fills, maxslots |-> maxslots, menus |-> menus, argsel |-> argsel]
+AllLays == {"none", "S", "SS", "SB", "BS", "SBB", "SSB", "inc"}
+M1  == <<{"edges", "shapes", "kinds", "loose"}>>
+
+cSmoke == << U({"one", "two"}, {"S", "SB"}, {"n", "e"}, 1, <<{"edges", "loose2"}>>, "all") >>
+
+cQuick == <<
+  \* every edge kind / wrap / via / placement with one slot
+  U({"two", "dia"}, {"S"}, {"n", "e"}, 1, M1, "few"),
+  \* service layouts x all filters / preserve arguments
+  U({"two"}, {"SB", "SS", "SBB", "SSB", "BS", "inc"}, {"n", "r"}, 1, <<{"fn1", "loose2"}>>, "all"),
+  \* default values that refer to constants of included files
+  U({"two", "dia"}, {"S"}, {"c", "n"}, 1, <<{"dflt"}>>, "few"),
+  \* two slots: parent / child chains across files
+  U({"chain"}, {"S"}, {"n"}, 2, <<{"parents"}, {"childs", "loose2"}>>, "few") >>
+
+cThorough == <<
+  \* every edge kind / wrap / via / kind / placement, every topology
+  U({"one", "two", "chain", "fork", "dia", "dia4"}, {"S", "SB"}, {"n", "e"}, 1, M1, "few"),
+  \* every service layout x every argument set x fillers
+  U({"two", "chain", "dia"}, AllLays, {"n", "e", "r"}, 1, <<{"fn1", "loose2"}>>, "all"),
+  U({"fork", "dia4"}, {"SB", "SBB", "inc"}, {"n", "c", "t"}, 1, <<{"fn1"}>>, "all"),
+  U({"two", "chain", "fork", "dia"}, {"S", "SB"}, {"c", "n", "e"}, 1, <<{"dflt"}>>, "all"),
+  \* two slots: chains of uses across files
+  U({"two", "chain", "dia"}, {"S", "SB"}, {"n"}, 2, <<{"parents"}, {"child", "loose2"}>>, "few"),
+  \* three slots
+  U({"chain", "dia"}, {"S"}, {"n"}, 3, <<{"parents"}, {"childs"}, {"childs", "loose2"}>>, "few") >>
 
 \* design-level sanity of layer A itself: keeping everything the code keeps on a filter-free run of a program
 \* without unreferenced struct-likes is allowed (A is satisfiable); checked through bok statistics in the check
